@@ -12,11 +12,11 @@ THEOREMS = ["Helios.Facts.lock_analysis_clean", "Helios.LB.recovers", "Helios.LB
             "Helios.LB.conserved_run", "Helios.LB.gauges_zero_when_idle",
             "Helios.Locks.lockorder_sound", "Helios.Facts.lock_order_ranked", "Helios.Facts.no_callback_under_lock",
             "Helios.Facts.timeouts_set"]
-FAULTS = ["refuse", "hang", "reset", "short", "garbage", "s500", "slow", "stall", "cau", "cad"]
+FAULTS = ["refuse", "hang", "reset", "short", "garbage", "s500", "i503", "slow", "stall", "cau", "cad"]
 # client-visible outcome classes a fault may legitimately produce (regex), besides the answers
 # of Helios' own gates (429 limiter / breaker budget, 503 breaker open / no healthy backend)
 ALLOWED = {
-    "ok": r"200", "refuse": r"502", "hang": r"502", "garbage": r"502", "s500": r"500",
+    "ok": r"200", "refuse": r"502", "hang": r"502", "garbage": r"502", "s500": r"500", "i503": r"503",
     "reset": r"200-then-broken\(\d+\)", "short": r"200-then-broken\(\d+\)", "stall": r"200-then-broken\(\d+\)",
     "slow": r"200", "cau": r"client-aborted-upload", "cad": r"client-aborted-download|200",
 }
